@@ -156,7 +156,7 @@ func Spec() *core.Spec {
 		Level: "exploration",
 		Rule: "seeded random generic TTLV trees (10 item types, any tag != 0, depth <= 6, fan-out <= 6) plus exhaustive ladders " +
 			"(string lengths 0..72, big integers ±(2^k+d) k<=200 with 0..2 over-long sign words, integer extremes, empty/nested structures, tag extremes); " +
-			"every tree also through one long-lived encoder after a filler message and Clear(); distinct = distinct (tree shape: tags, types, length mod 8, big-integer sign and bit-length mod 8)",
+			"every tree also through one long-lived encoder after a filler message and Clear(); the previous tree's returned bytes re-checked after later encodes; distinct = distinct (tree shape: tags, types, length mod 8, big-integer sign and bit-length mod 8)",
 		Assumptions: []string{"package wire is an independent reading of KMIP 1.4 §9.1 by the same author as the check", "booleans are exactly 0 or 1 on the wire"},
 		Shards:      func(tier string) int { return 8 },
 		Required:    []string{"trees", "reused_encoder_outputs", "overlong_bigint_inputs", "cases.ladder-strings", "cases.ladder-bigint"},
